@@ -58,7 +58,7 @@ pub fn invariants<L: Language, N: Analysis<L>>(eg: &EGraph<L, N>, handles: &[App
     if total != eg.total_number_of_nodes() {
         return Err(format!("sum of enodes() over live classes {} != total_number_of_nodes {}", total, eg.total_number_of_nodes()));
     }
-    for h in handles {
+    for (k, h) in handles.iter().enumerate() {
         let f = eg.find_applied_id(h);
         let ff = eg.find_applied_id(&f);
         cmp += 1;
@@ -67,6 +67,27 @@ pub fn invariants<L: Language, N: Analysis<L>>(eg: &EGraph<L, N>, handles: &[App
         }
         if !eg.is_alive(f.id) {
             return Err(format!("find({:?}) = {:?} is not a live class", h, f));
+        }
+        // the e-nodes listed for an *invocation* (enodes_applied: class e-nodes under the invocation's arguments, redundant and
+        // bound slots refreshed) look up to that invocation, and mention no slot that is neither an argument nor new
+        if k < 8 {
+            let marker = Slot::fresh();
+            for n in eg.enodes_applied(&f) {
+                cmp += 1;
+                match eg.lookup(&n) {
+                    None => return Err(format!("e-node {:?} listed by enodes_applied({:?}) cannot be looked up", n, f)),
+                    Some(a) => {
+                        if !eg.eq(&a, &f) {
+                            return Err(format!("e-node {:?} listed by enodes_applied({:?}) looks up to {:?}, which is not equal to the invocation", n, f, a));
+                        }
+                    }
+                }
+                for s in n.slots() {
+                    if !f.slots().contains(&s) && !(s.to_string().starts_with("$f") && s > marker) {
+                        return Err(format!("e-node {:?} listed by enodes_applied({:?}) has the free slot {:?}: neither an argument of the invocation nor a new slot", n, f, s));
+                    }
+                }
+            }
         }
     }
     Ok(cmp)
@@ -250,10 +271,15 @@ pub fn property(tier: Tier) -> Property {
         let mut cfg = MixedCfg::for_lang(LangId::Core);
         cfg.max_ops = tier.pick(10, 16);
         cfg.hist.namings = crate::tm::Naming::diverse();
+        // 4-slot leaves at most, few rewrite steps: with explanations compiled in, proofs over 120-element groups and rule sets
+        // that grow the e-graph make single cases run for tens of seconds (bounded by generated size, not by time)
         cfg.hist.gen.alphabet = 5;
-        cfg.hist.gen.max_fv = 5;
+        cfg.hist.gen.max_fv = 4;
         cfg.hist.gen.max_depth = 2;
-        cfg.hist.gen.ops = Some(vec!["v", "f2", "g3", "g4", "h4", "g5", "c0", "p", "w", "lam", "t3"]);
+        cfg.rewrite_p = 1;
+        cfg.no_subst_rules = true;
+        cfg.allow_extraction_subst = false;
+        cfg.hist.gen.ops = Some(vec!["v", "f2", "g3", "g4", "h4", "c0", "p", "w", "lam"]);
         cfg.hist.weights = [1, 1, 4, 3, 1, 2, 3, 1, 4, 1, 2, 5];
         stages.push(Box::new(Stage {
             name: "ops-core-wide",
@@ -261,7 +287,7 @@ pub fn property(tier: Tier) -> Property {
             run,
             panic_is_violation: true,
             render: |c: &Mixed| c.render(),
-            rule: "as ops-core, over a 5-name alphabet with leaves of up to 5 slots (symmetries that are products of cycles, several slots redundant in one step, orbits cut in the middle); same invariants",
+            rule: "as ops-core, over a 5-name alphabet with leaves of up to 4 slots (symmetries that are products of cycles, several slots redundant in one step, orbits cut in the middle); same invariants",
             case_timeout_s: tier.pick(30, 120),
             exhaustive: false,
         }));
